@@ -84,7 +84,10 @@ def build(p, code, lab, sizes):
     A, ch = graph_matrix(p, code, lab)
     data = make_data(p, sizes)
     rpy2.reset()
-    net = semi.DRFNet(A, [d.copy() for d in data])
+    passed = [d.copy() for d in data]
+    net = semi.DRFNet(A, passed)
+    for a in passed:            # hostile caller: the arrays handed to the constructor are overwritten after fitting
+        a[...] = -777.0
     fits = [e for e in rpy2.LOG if e[0] == "fit"]
     return A, ch, data, net, fits
 
